@@ -22,6 +22,9 @@ EVENTS = {
     'stopTest': ('stopTest', (E_TEST,)),
     'addSuccess': ('addSuccess', (E_TEST,)),
     'addSkip': ('addSkip', (E_TEST, ('str', 'reason'))),
+    # unittest's testPartExecutor reports a SkipTest raised inside a ``with self.subTest()`` block
+    # as addSkip(<the _SubTest object>, reason) -- a different object than the started test
+    'addSkip(sub)': ('addSkip', (('param', 'subtest'), ('str', 'reason'))),
     'addError': ('addError', (E_TEST, EXC)),
     'addFailure': ('addFailure', (E_TEST, EXC)),
     'addExpectedFailure': ('addExpectedFailure', (E_TEST, EXC)),
@@ -36,7 +39,7 @@ FINALS = ('addSuccess', 'addExpectedFailure', 'addUnexpectedSuccess')
 def protocol(variant):
     t = []
     t.append(('IDLE', 'startTest', 'RUN'))
-    for e in BAD_E + ('addSkip',):
+    for e in BAD_E + ('addSkip', 'addSkip(sub)'):
         t.append(('RUN', e, 'BAD'))
         t.append(('BAD', e, 'BAD'))
     t.append(('RUN', 'addSubTest(None)', 'RUN'))
@@ -111,6 +114,22 @@ def normalise_idle(st):
     for k, v in list(st.items()):
         if isinstance(v, tuple) and v and v[0] == 'enum':
             st[k] = ('enum', v[1], 'older')
+        elif isinstance(v, tuple) and len(v) == 2 and v[0] == 'param' and not v[1].endswith('@old'):
+            # an argument of an earlier test kept in the object: not known to be (or not to be)
+            # the object a later test passes
+            st[k] = ('param', v[1] + '@old')
+    return st
+
+
+TR_CAP = 3          # the symbolic testsRun counter saturates: (>=3) is all a rule needs to know
+STATE_CAP = 20000   # per configuration; the abstract domain is finite, this only bounds a bug
+
+
+def clamp(st):
+    tr = st.get('tr')
+    if tr and any(isinstance(x, int) and x > TR_CAP for x in tr):
+        st = dict(st)
+        st['tr'] = tuple(min(x, TR_CAP) if isinstance(x, int) else x for x in tr)
     return st
 
 
@@ -174,9 +193,14 @@ def _explore_one(ctx, cls, variant, config, ex):
                 ex.transitions.append(tr)
                 if d2 in ('CRASHED', 'STOPPED'):
                     continue
-                nst = normalise_idle(post) if d2 == 'IDLE' else mark_dirty(post)
+                nst = normalise_idle(post) if d2 == 'IDLE' else clamp(mark_dirty(post))
                 key = (d2, freeze(nst))
                 if key not in seen:
+                    if len(seen) >= STATE_CAP:
+                        from .srcmodel import AnalysisError
+                        raise AnalysisError('typestate exploration exceeded %d abstract states '
+                                            '(%s, %s): the abstract domain does not converge on '
+                                            'this shape of TestResult' % (STATE_CAP, variant, config))
                     seen[key] = word + (ev_name,)
                     q.append((key, nst))
     ex.states += len(seen)
